@@ -228,7 +228,7 @@ def gen_wsum_grid(tape):
     sc["listing"] = tape.shuffle(list(range(6)))
     if tape.chance(1, 3):
         sc["pairs2"] = True
-        sc["relay"] = tape.chance(2, 3)
+        sc["relay"] = tape.weighted([(True, 3), (False, 2), ("inner", 2)])
         if not sc.get("b_other_geometry"):
             sc["b"] = dict(sc["a"])
     return sc
@@ -284,15 +284,25 @@ def run_wsum_pairs(sc):
     cons = DebugConsumer({"i": fm.Info(time=None, grid=None, units=None)}, start=dt(0), step=timedelta(hours=sc["cstep"]),
                          callbacks={"i": lambda n, d, t: got.append((tick(t), np.array(d.magnitude)))}).with_name("cons")
     comps = [gen_a, gen_b, ws, cons]
-    relay = None
-    if sc.get("relay"):
+    relay = inner = None
+    if sc.get("relay") == "inner":
+        # pair B is itself the result of an inner merger (pull-based, learns its metadata late); its weight in the
+        # outer merger comes from generator A
+        inner = WeightedSum(inputs=["X"]).with_name("inner")
+        comps.append(inner)
+    elif sc.get("relay"):
         relay = Relay().with_name("relay")
         comps.append(relay)
     order = [i for i in sc["listing"] if i < len(comps)]
     composition = fm.Composition([comps[i] for i in order], print_log=False, log_level=50)
     gen_a.outputs["Value"] >> ws.inputs["A"]
     gen_a.outputs["Weight"] >> ws.inputs["A_weight"]
-    if relay is not None:
+    if inner is not None:
+        gen_b.outputs["Value"] >> inner.inputs["X"]
+        gen_b.outputs["Weight"] >> inner.inputs["X_weight"]
+        inner.outputs["WeightedSum"] >> ws.inputs["B"]
+        gen_a.outputs["Weight"] >> ws.inputs["B_weight"]
+    elif relay is not None:
         gen_b.outputs["Value"] >> relay.inputs["Value"]
         gen_b.outputs["Weight"] >> relay.inputs["Weight"]
         relay.outputs["Value"] >> ws.inputs["B"]
@@ -318,6 +328,8 @@ def run_wsum_pairs(sc):
     elif status == "ok":
         for (t, arr) in got:
             want = (1.0 + t) * 0.25 + (2.0 + t) * 0.75       # consumer and generator B step together
+            if inner is not None:
+                want = (1.0 + t) * 0.25 + ((2.0 + t) * 0.75) * 0.25
             log.append((t, float(arr.reshape(-1)[0])))
             if arr.shape != (1,) + tuple(shape_a) or not np.allclose(arr, want, rtol=1e-12):
                 v("weighted-sum", "value", f"at {t}: got {arr.reshape(-1)[:3]}, sum of value x weight is {want}")
